@@ -82,6 +82,15 @@ func (e *Extractor) killAssigned(info *types.Info, n ast.Node) {
 			if id, ok := ast.Unparen(x.X).(*ast.Ident); ok {
 				delete(e.known, info.Uses[id])
 			}
+		case *ast.ReturnStmt:
+			// a return made from `r = e; break L` of a one-pass block assigns r
+			if as := e.synthRet[x]; as != nil {
+				for _, l := range as.Lhs {
+					if id, ok := ast.Unparen(l).(*ast.Ident); ok {
+						delete(e.known, info.Uses[id])
+					}
+				}
+			}
 		case *ast.RangeStmt:
 			for _, k := range []ast.Expr{x.Key, x.Value} {
 				if id, ok := k.(*ast.Ident); ok {
@@ -120,7 +129,7 @@ func (e *Extractor) updateKnown(info *types.Info, as *ast.AssignStmt) {
 				vv := v
 				vals[i] = &vv
 			} else if t := info.TypeOf(as.Lhs[i]); t != nil && isErrType(t) {
-				if v, ok := errValue(info, r); ok {
+				if v, ok := errValue(info, r, e.known); ok {
 					vv := v
 					vals[i] = &vv
 				}
@@ -163,6 +172,9 @@ func (e *Extractor) recordReturn(info *types.Info, ret *ast.ReturnStmt) {
 		return
 	}
 	fr := e.frames[len(e.frames)-1]
+	if fr.fn == nil {
+		return // a one-pass labelled block, not a helper
+	}
 	fr.rets++
 	sig := fr.fn.Obj.Type().(*types.Signature)
 	n := sig.Results().Len()
@@ -174,7 +186,7 @@ func (e *Extractor) recordReturn(info *types.Info, ret *ast.ReturnStmt) {
 				vv := v
 				vals[i] = &vv
 			} else if isErrType(sig.Results().At(i).Type()) {
-				if v, ok := errValue(info, r); ok {
+				if v, ok := errValue(info, r, e.known); ok {
 					vv := v
 					vals[i] = &vv
 				} else if id, ok := ast.Unparen(r).(*ast.Ident); ok {
@@ -240,7 +252,7 @@ func isErrType(t types.Type) bool {
 
 // errValue: 1 when x certainly is a non-nil error (a call of an error
 // constructor), 0 when it is nil.
-func errValue(info *types.Info, x ast.Expr) (int64, bool) {
+func errValue(info *types.Info, x ast.Expr, known map[types.Object]int64) (int64, bool) {
 	x = ast.Unparen(x)
 	if core.IsNil(info, x) {
 		return 0, true
@@ -250,8 +262,20 @@ func errValue(info *types.Info, x ast.Expr) (int64, bool) {
 			switch f.Pkg().Path() {
 			case "fmt", "errors", core.Module + "/pkg/libs/errors":
 				switch f.Name() {
-				case "Errorf", "New", "Trace", "Static":
+				case "Errorf", "New", "Static":
 					return 1, true
+				case "Trace":
+					// Trace(nil) is nil: the wrapper is what its argument is
+					if len(call.Args) == 1 {
+						if id, isId := ast.Unparen(call.Args[0]).(*ast.Ident); isId {
+							// `errors.Trace(err)`: what err is known to be on this path
+							if k, ok := known[info.Uses[id]]; ok {
+								return k, true
+							}
+							return 0, false
+						}
+						return errValue(info, call.Args[0], known)
+					}
 				}
 			}
 		}
@@ -430,6 +454,10 @@ func (e *Extractor) evalDepth(info *types.Info, x ast.Expr, depth int) (int64, b
 			if k, ok := e.evalDepth(info, v.Args[0], depth+1); ok {
 				return truncate(tv.Type, k), true
 			}
+			return 0, false
+		}
+		if k, ok := e.evalCall(info, v, depth); ok {
+			return k, true
 		}
 	case *ast.UnaryExpr:
 		k, ok := e.evalDepth(info, v.X, depth+1)
